@@ -476,7 +476,8 @@ class RaftNode(Entity):
                 "term": self._current_term,
                 "success": True,
                 "from": self.name,
-                "match_index": self._log.last_index,
+                # Only what this request verified: entries beyond it may be stale leftovers
+                "match_index": prev_log_index + len(entries),
             },
             daemon=True,
         )
